@@ -220,6 +220,9 @@ def api_level(ctx, n):
             continue
         text = unhx([l for l in lines if l.startswith("text ")][0].split()[1])
         org = parse_origins([l for l in lines if l.startswith("origins")][0])
+        if ppx.in_D4(pc):
+            ctx.count("api_known_class_D4")     # the branch taken differs from the reference by the known finding of C04
+            continue
         ref = ppgen.Ref(files, ppx.ref_predefs(pc))
         try:
             ref.eval_file("top.sv")
